@@ -101,7 +101,8 @@ func OriginsString(os []Origin) string {
 
 // Prov computes provenance inside one function (and its closures).
 type Prov struct {
-	seen map[ssa.Value]bool
+	seen    map[ssa.Value]bool
+	loading map[string]bool
 }
 
 // Origins returns the possible sources of v.
@@ -309,6 +310,15 @@ type storeHit struct {
 }
 
 func (p *Prov) loadAlloc(al *ssa.Alloc, path []int) []Origin {
+	if p.loading == nil {
+		p.loading = map[string]bool{}
+	}
+	lk := fmt.Sprintf("%p%v", al, path)
+	if p.loading[lk] {
+		return nil // cyclic definition (x = f(x)): contributes nothing new
+	}
+	p.loading[lk] = true
+	defer delete(p.loading, lk)
 	root := al.Parent()
 	for root.Parent() != nil {
 		root = root.Parent()
@@ -493,4 +503,34 @@ func IsCallTo(name string) func(Origin) bool {
 // IsGlobalNamed matches a load of a package-level variable.
 func IsGlobalNamed(name string) func(Origin) bool {
 	return func(o Origin) bool { return o.Kind == KGlobal && o.V.Name() == name }
+}
+
+// FieldOrigins returns the origins of field number idx of struct value v
+// (v may be a load of a local composite literal, in which case the store to
+// that field is found).
+func FieldOrigins(v ssa.Value, idx int) []Origin {
+	p := &Prov{seen: map[ssa.Value]bool{}}
+	if u, ok := v.(*ssa.UnOp); ok && u.Op.String() == "*" {
+		if al, ok := u.X.(*ssa.Alloc); ok {
+			return dedup(p.loadAlloc(al, []int{idx}))
+		}
+	}
+	return dedup([]Origin{{Kind: KField, Field: structField(v.Type(), idx), Base: p.val(v)}})
+}
+
+// FieldIndex returns the index of the named field in struct type t, or -1.
+func FieldIndex(t types.Type, name string) int {
+	if p, ok := t.Underlying().(*types.Pointer); ok {
+		t = p.Elem()
+	}
+	st, ok := t.Underlying().(*types.Struct)
+	if !ok {
+		return -1
+	}
+	for i := 0; i < st.NumFields(); i++ {
+		if st.Field(i).Name() == name {
+			return i
+		}
+	}
+	return -1
 }
